@@ -452,10 +452,62 @@ def judge(ctx, c, case):
         ctx.nontrivial(sig_of([c['recs'], c['fmt'], c['lim_arg']]))
 
 
+def hand_built_format_case(ctx, rng, spec=None):
+    """the format of the table is built from the documented classes by hand, not from a format string: a list of
+    fields that mixes plain names and field objects, columns that are given one width limit only (the other one is
+    the field type's)"""
+    from ak.ppobj import PPTableFormat, ReprColumn, RecordStructure, FieldType
+    ctx.evaluated()
+    if spec is None:
+        spec = {"recs": T.gen_records(rng, (0, 1, 3, 6)), "lo_a": rng.choice([None, 0, 3, 6]),
+                "hi_b": rng.choice([None, 2, 5, 12]), "both_d": rng.choice([None, (2, 4), (5, 5)]),
+                "mixed_fields": rng.random() < 0.5}
+    recs = [tuple(r) for r in spec["recs"]]
+    case = {"hand_built_format": spec}
+    ft = T.mk_field_types()
+    dflt = ReprStructure._DFLT_FIELD_TYPE
+    titles = {f: f for f in T.FIELDS}
+    try:
+        if spec["mixed_fields"]:
+            # (names and field objects in one list: a name stands for the element at its place in the list)
+            t0 = PPTable(recs, fields=['a', RecordField('b', dflt, 1, 'b'), 'st', 'd'], fmt="d,a,b", fields_types=ft,
+                         header=None, footer=None)
+            lines0 = T.render(t0).split("\n")
+            cols0 = [dict(field=f, mod=None, brk=False, lo=1, hi=999, spec=f, hidden=False) for f in ('d', 'a', 'b')]
+            problems = T.check_layout(lines0, recs, cols0, (10 ** 6, 10 ** 6) if len(recs) <= 25 else None, None, None, titles)
+            ctx.count("tables_with_names_and_field_objects_in_one_fields_list")
+            for mech, detail in problems[:3]:
+                ctx.violation(mech, dict(detail, fields="names and field objects mixed"), case)
+            if problems:
+                return
+        fields = [RecordField(f, ft.get(f, dflt), k, f) for k, f in enumerate(T.FIELDS)]
+        by = {f.name: f for f in fields}
+        d_kw = {} if spec["both_d"] is None else {"min_width": spec["both_d"][0], "max_width": spec["both_d"][1]}
+        columns = [ReprColumn(by['a'], **({} if spec["lo_a"] is None else {"min_width": spec["lo_a"]})),
+                   ReprColumn(by['b'], **({} if spec["hi_b"] is None else {"max_width": spec["hi_b"]})),
+                   ReprColumn(by['d'], **d_kw)]
+        t = PPTable(recs, fmt_obj=PPTableFormat(ReprStructure(RecordStructure(fields), columns)), header=None, footer=None)
+        lines = T.render(t).split("\n")
+    except Exception as err:
+        ctx.violation("table-raises", {"type": type(err).__name__, "msg": str(err)[:200], "fmt": "built by hand"}, case)
+        return
+    ctx.count("tables_with_a_format_built_by_hand")
+    d_type = ft['d']
+    cols = [dict(field='a', mod=None, brk=False, lo=1 if spec["lo_a"] is None else spec["lo_a"], hi=999, spec='a', hidden=False),
+            dict(field='b', mod=None, brk=False, lo=1, hi=999 if spec["hi_b"] is None else spec["hi_b"], spec='b', hidden=False),
+            dict(field='d', mod=None, brk=False, lo=d_type.min_width if spec["both_d"] is None else spec["both_d"][0],
+                 hi=d_type.max_width if spec["both_d"] is None else spec["both_d"][1], spec='d', hidden=False)]
+    problems = T.check_layout(lines, recs, cols, (10 ** 6, 10 ** 6) if len(recs) <= 25 else None, None, None, titles)
+    for mech, detail in problems[:3]:
+        ctx.violation(mech, dict(detail, fmt="built by hand"), case)
+
+
 def run_shard(ctx):
     big = bool(ctx.params.get("big"))
     for i in range(ctx.cases):
         rng = ctx.rng(i)
+        if i % 10 == 6 and not big:
+            hand_built_format_case(ctx, rng)
         c = gen_case(rng, big)
         judge(ctx, c, c)
         if i < 2:
@@ -464,6 +516,9 @@ def run_shard(ctx):
 
 
 def replay(ctx, case):
+    if "hand_built_format" in case:
+        hand_built_format_case(ctx, None, case["hand_built_format"])
+        return
     case = dict(case)
     case['recs'] = [tuple(r) for r in case['recs']]
     case['extra_recs'] = [tuple(r) for r in case.get('extra_recs', [])]
